@@ -143,6 +143,8 @@ pub struct ProgGen<'g, 'r> {
     pub labels: Vec<&'static str>,
     /// the previous function ended with a statement that leaves the flags describing this global
     handover: Option<String>,
+    /// long bodies: a helper made of one `asm` statement with a declared size, and that size
+    pad_helper: Option<Func>,
     /// helpers that contain a call to themselves
     self_callers: HashSet<usize>,
 }
@@ -155,7 +157,7 @@ fn is8(t: Ty) -> bool {
 
 impl<'g, 'r> ProgGen<'g, 'r> {
     pub fn new(g: &'g mut G<'r>, cfg: GenCfg) -> Self {
-        ProgGen { g, cfg, globals: vec![], helpers: vec![], name_ctr: 0, labels: vec![], handover: None, self_callers: HashSet::new() }
+        ProgGen { g, cfg, globals: vec![], helpers: vec![], name_ctr: 0, labels: vec![], handover: None, pad_helper: None, self_callers: HashSet::new() }
     }
 
     fn label(&mut self, l: &'static str) {
@@ -700,6 +702,15 @@ impl<'g, 'r> ProgGen<'g, 'r> {
     fn expr16(&mut self, fc: &mut FnCtx, want: Ty, depth: u32) -> Expr {
         let t8 = if want.signed() && self.cfg.signed && self.g.chance(1, 3) { Ty::I8 } else { Ty::U8 };
         let shifts = !self.cfg.excl.has("shift_in_16bit_dest");
+        let calls16: Vec<usize> = if self.cfg.calls
+            && !(self.cfg.excl.has("two_value_calls_in_expr") && fc.value_calls_in_expr >= 1)
+            && !(self.cfg.excl.has("call_in_args") && fc.in_args > 0)
+            && !fc.touched.contains("#sidefx")
+        {
+            self.callable(fc, true).into_iter().filter(|i| self.helpers[*i].ret == Some(Ty::U8)).collect()
+        } else {
+            vec![]
+        };
         let w = [
             25u32,                              // leaf16
             12,                                 // leaf8 (extension)
@@ -707,9 +718,31 @@ impl<'g, 'r> ProgGen<'g, 'r> {
             if depth > 0 { 8 } else { 0 },      // unary
             if depth > 0 && shifts { 6 } else { 0 }, // byte composition with << 8 / >> 8
             if depth > 0 { 6 } else { 0 },      // leaf8 op leaf8 (widening arithmetic)
+            if !calls16.is_empty() { 5 } else { 0 }, // the 8-bit result of a call, widened
         ];
         match self.g.weighted(&w) {
+            6 => {
+                // the function is called once, whatever the number of bytes of the destination
+                let fi = *self.g.pick(&calls16);
+                let call = self.call_expr(fc, fi, depth.min(1));
+                // (a constant on the other side of + or -: the open finding about the high byte of a register)
+                let mut other = self.leaf_w(fc, want);
+                if self.cfg.excl.has("add16_register_operand") {
+                    for _ in 0..6 {
+                        if Self::has_var(&other) && !matches!(&other, Expr::Lv(LValue::Var(v)) if self.globals.iter().any(|g| g.name == *v && matches!(g.kind, VarKind::ConstScalar(_)))) {
+                            break;
+                        }
+                        other = self.leaf_w(fc, want);
+                    }
+                }
+                match self.g.below(4) {
+                    0 | 1 => call,
+                    2 => Expr::bin(if self.g.chance(1, 2) { BinOp::Add } else { BinOp::Sub }, other, call),
+                    _ => Expr::bin(*self.g.pick(&[BinOp::Add, BinOp::Or, BinOp::Xor]), call, other),
+                }
+            }
             0 => self.leaf_w(fc, want),
+            1 if depth > 0 && self.g.chance(1, 6) && !fc.touched.contains("#call") => self.side_effect_expr(fc, t8),
             1 => self.leaf_w(fc, t8),
             2 => {
                 let op = *self.g.pick(&[BinOp::Add, BinOp::Add, BinOp::Sub, BinOp::Sub, BinOp::And, BinOp::Or, BinOp::Xor]);
@@ -873,7 +906,9 @@ impl<'g, 'r> ProgGen<'g, 'r> {
                     }
                 }
                 let e = self.leaf_w(fc, ty);
-                Expr::Assign(None, lv, Box::new(e))
+                // (also `v += e` ...: the value of the expression is the new value of the variable)
+                let op = if is8(ty) && self.g.chance(1, 3) { Some(*self.g.pick(&[BinOp::Add, BinOp::Sub, BinOp::Or, BinOp::And, BinOp::Xor])) } else { None };
+                Expr::Assign(op, lv, Box::new(e))
             }
         }
     }
@@ -1666,7 +1701,8 @@ impl<'g, 'r> ProgGen<'g, 'r> {
                 Self::new_expr_ctx(fc);
                 let c = self.condition(fc, 1);
                 let skipped = self.assign_stmt(fc);
-                let target = self.assign_stmt(fc);
+                // (`done: ;` — the label of an empty statement, the usual way to jump to the end of a block)
+                let target = if self.g.chance(1, 4) { Stmt::Empty } else { self.assign_stmt(fc) };
                 vec![Stmt::If(c, Box::new(Stmt::Goto(l.clone())), None), skipped, Stmt::Label(l, Box::new(target))]
             }
             8 => {
@@ -1876,10 +1912,95 @@ impl<'g, 'r> ProgGen<'g, 'r> {
                 ];
             }
         }
-        let pick = self.g.below(if self.cfg.addr_low_byte { 44 } else { 41 });
+        let pick = self.g.below(if self.cfg.addr_low_byte { 50 } else { 47 });
         // (38..40 need cfg.addr_low_byte; the numbering of the other patterns is kept)
         let pick = if !self.cfg.addr_low_byte && pick >= 38 { pick + 3 } else { pick };
         match pick {
+            44 | 45 | 46 => {
+                // one array read through both index registers in two tests that follow each other: what the
+                // flags describe after the first is not what the second needs, although only the register differs
+                let big: Vec<(String, Ty, usize)> = arrs.iter().filter(|(_, _, n)| *n >= 2).cloned().collect();
+                if px || py || big.is_empty() {
+                    return vec![self.assign_stmt(fc)];
+                }
+                let (ar, _, n) = self.g.pick(&big).clone();
+                let i = self.g.below(n) as i32;
+                let j = (i + 1 + self.g.below(n - 1) as i32) % n as i32;
+                let ex = Expr::Lv(LValue::Index(ar.clone(), Box::new(Expr::var("X"))));
+                let ey = Expr::Lv(LValue::Index(ar.clone(), Box::new(Expr::var("Y"))));
+                let mut out = vec![
+                    Stmt::Expr(Expr::assign(LValue::Var("X".into()), Expr::lit(i))),
+                    Stmt::Expr(Expr::assign(LValue::Var("Y".into()), Expr::lit(j))),
+                ];
+                let kk = *self.g.pick(&[0, 0, 1, 5]);
+                let k2 = *self.g.pick(&[0, 1, 1, 7]);
+                let (first, second) = if self.g.chance(1, 2) { (ey.clone(), ex.clone()) } else { (ex.clone(), ey.clone()) };
+                let first_is_x = matches!(&first, Expr::Lv(LValue::Index(_, r)) if matches!(&**r, Expr::Lv(LValue::Var(v)) if v == "X"));
+                let (fr, sr) = if first_is_x { ("X", "Y") } else { ("Y", "X") };
+                // the element tested second is given its value first, the one tested first last
+                out.push(Stmt::Expr(Expr::assign(LValue::Index(ar.clone(), Box::new(Expr::var(sr))), Expr::lit(kk))));
+                match self.g.below(3) {
+                    0 => out.push(Stmt::Expr(Expr::assign(LValue::Index(ar.clone(), Box::new(Expr::var(fr))), Expr::lit(k2)))),
+                    1 => {
+                        out.push(Stmt::Expr(Expr::assign(LValue::Index(ar.clone(), Box::new(Expr::var(fr))), Expr::lit(k2))));
+                        out.push(Stmt::Expr(Expr::IncDec(self.g.chance(1, 2), false, LValue::Index(ar.clone(), Box::new(Expr::var(fr))))));
+                    }
+                    _ => {}
+                }
+                let nz = |e: Expr, g: &mut G| if g.chance(1, 2) { Expr::bin(BinOp::Ne, e, Expr::lit(0)) } else { e };
+                let cond = match self.g.below(5) {
+                    0 | 1 => {
+                        let l = nz(first, &mut self.g);
+                        let r = nz(second, &mut self.g);
+                        Expr::bin(BinOp::LAnd, l, r)
+                    }
+                    2 => Expr::bin(BinOp::LOr, Expr::bin(BinOp::Eq, first, Expr::lit(0)), Expr::bin(BinOp::Eq, second, Expr::lit(0))),
+                    3 => {
+                        let l = nz(first, &mut self.g);
+                        let r = nz(second, &mut self.g);
+                        Expr::bin(BinOp::LOr, l, r)
+                    }
+                    // a single test of the element that was not written last
+                    _ => nz(second, &mut self.g),
+                };
+                out.push(Stmt::If(cond, Box::new(Stmt::Expr(Expr::assign(LValue::Var(a.clone()), Expr::lit(k + 1)))), None));
+                out
+            }
+            47 | 48 | 49 => {
+                // an index register loaded from the table it indexes, and the table read again through it: the
+                // second read uses the new value of the register
+                let big: Vec<(String, Ty, usize)> = arrs.iter().filter(|(_, _, n)| *n >= 3).cloned().collect();
+                let reg = if !px && (py || self.g.chance(1, 2)) { "X" } else if !py { "Y" } else { return vec![self.assign_stmt(fc)] };
+                if big.is_empty() {
+                    return vec![self.assign_stmt(fc)];
+                }
+                let (ar, _, n) = self.g.pick(&big).clone();
+                let n = n.min(200);
+                let x0 = self.g.below(n) as i32;
+                let k1 = (x0 + 1 + self.g.below(n - 1) as i32) % n as i32;
+                let j = (k1 + 1 + self.g.below(n - 1) as i32) % n as i32;
+                let at = |i: i32| LValue::Index(ar.clone(), Box::new(Expr::lit(i)));
+                let through = Expr::Lv(LValue::Index(ar.clone(), Box::new(Expr::var(reg))));
+                let mut out = vec![
+                    Stmt::Expr(Expr::assign(at(x0), Expr::lit(k1))),
+                    Stmt::Expr(Expr::assign(at(k1), Expr::lit(j))),
+                    Stmt::Expr(Expr::assign(LValue::Var(reg.into()), Expr::lit(x0))),
+                    Stmt::Expr(Expr::assign(LValue::Var(reg.into()), through.clone())),
+                ];
+                match self.g.below(3) {
+                    0 => out.push(Stmt::Expr(Expr::assign(LValue::Var(a.clone()), through))),
+                    1 => {
+                        out.push(Stmt::Expr(Expr::assign(LValue::Var(reg.into()), through)));
+                        out.push(Stmt::Expr(Expr::assign(LValue::Var(a.clone()), Expr::var(reg))));
+                    }
+                    _ => out.push(Stmt::If(
+                        Expr::bin(if self.g.chance(1, 2) { BinOp::Eq } else { BinOp::Ne }, through, Expr::lit(j)),
+                        Box::new(Stmt::Expr(Expr::assign(LValue::Var(a.clone()), Expr::lit(k + 1)))),
+                        None,
+                    )),
+                }
+                out
+            }
             41 | 42 | 43 => {
                 // the high byte of an element of a 16-bit array, reached with a constant index and with the
                 // same index in a register (the two bytes of an element are not neighbours in memory)
@@ -1921,6 +2042,20 @@ impl<'g, 'r> ProgGen<'g, 'r> {
                 }
                 let op = if self.g.chance(1, 2) { BinOp::Ne } else { BinOp::Eq };
                 let mut out = vec![];
+                // the high byte of the address of a table in ROM (tables are laid out from $8000)
+                let tables: Vec<String> = self.globals.iter().filter(|g| matches!(g.kind, VarKind::ConstTable(_))).map(|g| g.name.clone()).collect();
+                if !tables.is_empty() && self.g.chance(1, 2) {
+                    let t = self.g.pick(&tables).clone();
+                    for guess in [0x80, 0x81, 0x80] {
+                        out.push(Stmt::Expr(Expr::assign(LValue::Var(reg.into()), Expr::bin(BinOp::Shr, Expr::AddrOf(t.clone()), Expr::lit(8)))));
+                        out.push(Stmt::If(
+                            Expr::bin(op, Expr::var(reg), Expr::lit(guess)),
+                            Box::new(Stmt::Expr(Expr::IncDec(true, false, LValue::Var(a.clone())))),
+                            None,
+                        ));
+                    }
+                    return out;
+                }
                 // the register is loaded again before each comparison (a label forgets what is known)
                 for d in [0, 1, -1, 2] {
                     out.push(Stmt::Expr(Expr::assign(LValue::Var(reg.into()), Expr::AddrOf(ar.clone()))));
@@ -2288,6 +2423,14 @@ impl<'g, 'r> ProgGen<'g, 'r> {
             .map(|g| g.name.clone())
             .collect();
         for _ in 0..n {
+            if let Some(p) = &self.pad_helper {
+                if self.g.chance(1, 5) {
+                    // the declared size of the statement is what the callers are measured with, also
+                    // where the helper is expanded in line
+                    v.push(Stmt::Expr(Expr::Call(p.name.clone(), vec![])));
+                    continue;
+                }
+            }
             if !wide.is_empty() && !fc.protected.contains("X") && !fc.protected.contains("Y") && self.g.chance(1, 6) {
                 let t = self.g.pick(&wide).clone();
                 let (dst, idx) = if self.g.chance(1, 2) { ("X", "Y") } else { ("Y", "X") };
@@ -2548,6 +2691,21 @@ impl<'g, 'r> ProgGen<'g, 'r> {
 
     pub fn program(mut self) -> (Program, Vec<&'static str>) {
         self.gen_globals();
+        if self.cfg.long_bodies && self.g.chance(1, 2) {
+            let k = 4 + self.g.below(6);
+            let text = vec!["NOP"; k].join("\\n\\t");
+            self.pad_helper = Some(Func {
+                name: "zpad".into(),
+                ret: None,
+                params: vec![],
+                body: vec![Stmt::Asm(text, Some(k as u32))],
+                inline: self.g.chance(3, 4),
+                interrupt: false,
+                proto: false,
+                bank: 0,
+            });
+            self.label("sized-asm-helper");
+        }
         let nh = if self.cfg.helpers_must_exist {
             1 + self.g.below(self.cfg.max_helpers.max(1))
         } else {
@@ -2587,6 +2745,9 @@ impl<'g, 'r> ProgGen<'g, 'r> {
         }
         let main = self.gen_func(nh, true);
         let mut funcs = self.helpers.clone();
+        if let Some(p) = &self.pad_helper {
+            funcs.insert(0, p.clone());
+        }
         funcs.push(main);
         (Program { globals: self.globals.clone(), funcs }, self.labels.clone())
     }
